@@ -282,7 +282,8 @@ impl ClientModel {
     }
 
     pub fn peer_bytes(&mut self, data: &[u8]) {
-        if self.phase != Phase::Connected {
+        if self.phase != Phase::Connected || self.inbound_eof.is_some() {
+            // nothing arrives after the line has failed
             return;
         }
         match self.transport {
@@ -296,23 +297,26 @@ impl ClientModel {
                 }
                 if self.mbap.dead && self.phase == Phase::Connected {
                     self.on_framing_error();
+                } else {
+                    self.pump();
                 }
             }
             Transport::Rtu => {
                 self.rtu_buf.extend_from_slice(data);
                 self.rtu_drain();
+                self.pump();
             }
         }
     }
 
     fn rtu_drain(&mut self) {
-        // frames are only read while a request is outstanding and written, or while idle
-        if let Some(o) = &self.outstanding {
-            if o.write_at.is_some() {
-                return;
-            }
-        }
         loop {
+            // frames are only read while a request is outstanding and written, or while idle
+            if let Some(o) = &self.outstanding {
+                if o.write_at.is_some() {
+                    return;
+                }
+            }
             if self.phase != Phase::Connected || self.rtu_buf.is_empty() {
                 return;
             }
@@ -373,7 +377,8 @@ impl ClientModel {
             at: self.now,
             outcome,
         });
-        self.pump();
+        // the next command is taken only after everything already received has been
+        // examined (and dropped as idle traffic): callers pump afterwards
     }
 
     /// the peer closed (kind None) or the read fails with `kind`
@@ -655,7 +660,9 @@ impl ClientModel {
         if let Some(Some(k)) = self.inbound_eof.take() {
             if self.phase == Phase::Connected {
                 self.peer_eof(Some(k));
+                return;
             }
         }
+        self.pump();
     }
 }
